@@ -6,11 +6,20 @@ from gffutils.feature import Feature, feature_from_line
 from gv.model import grammar as G
 
 ID = "C08"
-RULE = ("part 'enc': every dialect dictionary (72) x every value string of length 1..L over a 19-symbol alphabet x 4 placements, "
-        "printed and re-parsed with that dialect; part 'total': every string of length <= N over the 9-symbol structural alphabet as "
-        "the attribute column, parsed with inference and three supplied dialects; plus 15 long (25-66 character) strings of word runs and "
-        "repeated structural characters, each parsed under a 20 s termination guard. Non-trivial = value contains a reserved/structural "
-        "character (enc) or the string has >= 2 structural characters (total)")
+RULE = (
+    "Part 'enc' (shards = dialect dictionary (72 = fmt/keyval separator {gff3 '=', gff3 ' ', gtf ' '} x quoted x 3 field separators x "
+    "trailing x repeated keys) x length): every value string of length 1..2 (quick) / 1..3 (thorough) over a 19-symbol alphabet "
+    "(letters, blank, tab, LF, CR, reserved characters, quote, NUL, 0x1f, 0x7f, e-acute, U+2028, U+0085, '+', the 3-character text "
+    "'%41') x 4 placements; GTF dictionaries skip values containing ; \" , or control characters. A Feature with that dialect is printed "
+    "and re-parsed with it: printing twice gives the same text and hash, printing does not modify the attributes, the text is one line "
+    "with 9 + extras columns, columns and the attribute mapping are unchanged; for placement 0 the round trip is repeated after the "
+    "caller edited its dialect dictionary. Part 'total' (shards by length and first two symbols): every string of length 0..6 (quick) / "
+    "0..7 (thorough) over the 9-symbol structural alphabet as the attribute column, parsed with inference and three supplied dialects: "
+    "must not raise and must yield lists of strings. Part 'long': 15 long (30-78 character) strings of word runs and repeated "
+    "structural characters x the same 4 dialect options, each under a 20 s termination guard. Non-trivial = the value contains a "
+    "character needing escape, a blank, quote, '+' or non-ASCII (enc); the string has >= 2 structural characters (total); every long "
+    "execution."
+)
 ASSUMPTIONS = [
     "exhaustive for the stated alphabets and lengths only: 'arbitrary Unicode' and 'randomly beyond' are not sampled (small-scope assumption)",
     "GTF-style dictionaries are exercised only with values free of ; \" , and control characters, as the statement says",
